@@ -66,3 +66,20 @@ package mpbgv
 //@ noescape EncToShareProtocol.GenShare ct
 //@   property C09
 
+
+// ---- masked transform / refresh (property C16, "the result ... decrypts to the same plaintext"): on
+// ---- success the output ciphertext carries the metadata of the INPUT (its scale in particular:
+// ---- the payload is re-encrypted at the input's scale), whatever the receiver held (finding F38)
+//@ afunc EncToShareProtocol.GetShare
+//@   trusted the decryption share of the mask (integer encoder path): writes the additive share only
+//@   assigns secretShareOut
+//@ afunc MaskedTransformProtocol.Transform
+//@   property C16
+//@   callback the user's transform acts on the slice of plaintext values it is given (documented contract of MaskedTransformFunc.Func)
+//@   case true ; set transform = nil
+//@   case true
+//@   case true ; alias ciphertextOut = ct
+//@   requires len(ciphertextOut.Value) == 2
+//@   requires isntt(share.ShareToEncShare.Value) && mexp(share.ShareToEncShare.Value) == 0
+//@   ensures implies(isnil(err), sameval(ciphertextOut.MetaData.PlaintextMetaData.Scale, old(ct.MetaData.PlaintextMetaData.Scale)))
+//@   ensures implies(isnil(err), iff(ciphertextOut.MetaData.CiphertextMetaData.IsNTT, old(ct.MetaData.CiphertextMetaData.IsNTT)) && iff(ciphertextOut.MetaData.CiphertextMetaData.IsMontgomery, old(ct.MetaData.CiphertextMetaData.IsMontgomery)) && iff(ciphertextOut.MetaData.PlaintextMetaData.IsBatched, old(ct.MetaData.PlaintextMetaData.IsBatched)))
